@@ -165,7 +165,14 @@ def make_error(
         parts.append(str_fixed(1, b"#"))
         parts.append(str_fixed(5, get_sqlstate(code)))
 
-    parts.append(str_rest(server_charset.encode(str(msg))))
+    text = str(msg)
+    try:
+        encoded = server_charset.encode(text)
+    except UnicodeEncodeError:
+        # A message quoting text the results character set cannot express
+        # must still reach the client
+        encoded = text.encode(server_charset.codec, errors="replace")
+    parts.append(str_rest(encoded))
 
     return _concat(*parts)
 
